@@ -94,13 +94,13 @@ func runC15(c *Ctx) {
 		coord.ResetLog()
 		n := 1 + r.Intn(10)
 		type req struct {
-			tok   string
-			msg   message.RpcMessage
-			id    int32
-			want  string // expected response token or ""
-			bt    int
-			key   string
-			kind  string
+			tok  string
+			msg  message.RpcMessage
+			id   int32
+			want string // expected response token or ""
+			bt   int
+			key  string
+			kind string
 		}
 		var reqs []req
 		var msgIDs []int32
@@ -163,7 +163,7 @@ func runC15(c *Ctx) {
 				bt = reType
 			}
 			xid := fmt.Sprintf("10.0.0.%d:8091:%d", 1+r.Intn(3), 1000+r.Intn(4)) // xids shared between requests
-			bid := int64(1 + r.Intn(6))                                            // branch ids shared across xids
+			bid := int64(1 + r.Intn(6))                                          // branch ids shared across xids
 			if r.Chance(10) {
 				bid = int64(r.U64())
 			}
